@@ -32,6 +32,9 @@ type Config struct {
 	Dir    string
 	Tags   string
 	GOARCH string
+	// Overlay replaces the content of source files (absolute path -> content);
+	// used by the mutation tool to analyse a variant without copying the tree.
+	Overlay map[string][]byte
 }
 
 // Prog is the loaded, type-checked program plus its SSA form.
@@ -71,6 +74,9 @@ func Load(cfg Config) (*Prog, error) {
 		Dir:   dir,
 		Tests: false,
 		Env:   env,
+	}
+	if len(cfg.Overlay) > 0 {
+		pc.Overlay = cfg.Overlay
 	}
 	if cfg.Tags != "" {
 		pc.BuildFlags = []string{"-tags=" + cfg.Tags}
